@@ -129,7 +129,19 @@ def line_text(line):
     try:
         return str(line)
     except Exception as e:  # str must not fail on a consistent line
-        return "<str failed: %s>" % type(e).__name__
+        # an unwritable line (e.g. a tag that does not fit its declared datatype, written at level >= 2):
+        # show what it stores, so that a change of another field stays visible
+        raw = []
+        try:
+            tags = list(line.tagnames)
+            for fn in list(line.positional_fieldnames) + tags:
+                try:
+                    raw.append(line.field_to_s(fn, tag=fn in tags))
+                except Exception as e2:
+                    raw.append("<%s unwritable: %s>" % (fn, type(e2).__name__))
+        except Exception:
+            pass
+        return "<str failed: %s>%s" % (type(e).__name__, (" " + " | ".join(raw)) if raw else "")
 
 
 def make_keys(gfa, lines=None):
